@@ -233,9 +233,9 @@ def run_unit(unit_name, template_rel, variant):
         return res
     # canary: every contracted function must fail when `false` is added to its postcondition
     cj, cerr, cw = run_verus(cpath)
-    expected = len(re.findall(r"^\s*(ensures false,|false,)\s*$", ctext, re.M))
+    expected = len(re.findall(r"assert\(false\); // CANARY", ctext))
     csem, cother = parse_errors(cerr or "", ctext, cpath)
-    cfailed = len(set(f["function"] for f in csem if f["clause"].startswith("ensures false") or f["clause"].startswith("false")))
+    cfailed = len([f for f in csem if "CANARY" in f["clause"]])
     res["canary"] = dict(expected=expected, failed=cfailed)
     if res["status"] == "ok" and (cother or cfailed < expected):
         res["status"] = "undecided"
